@@ -62,6 +62,24 @@ type Case struct {
 	Order  []int  `json:"order"`
 	Pre    []int  `json:"pre"`
 	Stream bool   `json:"stream"`
+	Ctor   string `json:"ctor"` // new | handler | literal
+	Mut    string `json:"mut"`  // none | append | replace | truncate
+	Pre2   []int  `json:"pre2"`
+	Path   string `json:"path"`
+}
+
+// finalClasses: the exported Classes list of the middleware when it serves
+// (what the program registered), by the harness's own bookkeeping.
+func finalClasses(cs Case) []int {
+	switch cs.Mut {
+	case "append":
+		return append(append([]int{}, cs.Pre...), cs.Pre2...)
+	case "replace":
+		return append([]int{}, cs.Pre2...)
+	case "truncate":
+		return append([]int{}, cs.Pre[:len(cs.Pre)/2]...)
+	}
+	return cs.Pre
 }
 
 type result struct {
@@ -101,6 +119,12 @@ func opText(ops []Op) string {
 			s = fmt.Sprintf("on2(s%d,%s,s%d,%s)", o.I, o.A, o.J, o.B)
 		case "onc":
 			s = fmt.Sprintf("onc(s%d,%s,%s)", o.I, o.A, bs(o.V))
+		case "onel", "hxel":
+			s = fmt.Sprintf("%s(%s?s%d,%s:s%d,%s)", o.K, bs(o.V), o.I, o.A, o.J, o.B)
+		case "onnest":
+			s = fmt.Sprintf("onnest(%s&%s?s%d,%s:s%d,%s)", bs(o.V), bs(o.W), o.I, o.A, o.J, o.B)
+		case "ccel":
+			s = fmt.Sprintf("ccel(%s?c%d:c%d)", bs(o.V), o.I, o.J)
 		case "cd", "cfn":
 			s = fmt.Sprintf("%s(c%d)", o.K, o.I)
 		case "cc", "csl", "cn", "cma":
@@ -134,7 +158,17 @@ func opText(ops []Op) string {
 func caseText(cs Case) string {
 	var sb strings.Builder
 	if cs.Mode == "http" {
-		fmt.Fprintf(&sb, "http[pre=%v stream=%s] ", cs.Pre, bs(cs.Stream))
+		fmt.Fprintf(&sb, "http[pre=%v stream=%s", cs.Pre, bs(cs.Stream))
+		if cs.Ctor != "new" {
+			fmt.Fprintf(&sb, " ctor=%s", cs.Ctor)
+		}
+		if cs.Path != "" {
+			fmt.Fprintf(&sb, " path=%s", cs.Path)
+		}
+		if cs.Mut != "none" {
+			fmt.Fprintf(&sb, " %s=%v", cs.Mut, cs.Pre2)
+		}
+		sb.WriteString("] ")
 	}
 	for i, c := range cs.Ctxs {
 		if i > 0 {
@@ -181,6 +215,7 @@ func cloneCase(cs Case) Case {
 	}
 	out.Order = append([]int(nil), cs.Order...)
 	out.Pre = append([]int(nil), cs.Pre...)
+	out.Pre2 = append([]int(nil), cs.Pre2...)
 	return out
 }
 
@@ -197,6 +232,15 @@ func normalize(cs Case) Case {
 				n++
 				ops[i].I %= 8
 				ops[i].J %= 8
+				if !usesI(ops[i].K) {
+					ops[i].I = 0
+				}
+				if !usesJ(ops[i].K) {
+					ops[i].J, ops[i].B = 0, ""
+				}
+				if !isScriptOp(ops[i].K) {
+					ops[i].A, ops[i].B = "", ""
+				}
 				if !hasSub(ops[i].K) {
 					ops[i].Sub = nil
 				}
@@ -213,6 +257,21 @@ func normalize(cs Case) Case {
 	if cs.Mode != "http" {
 		cs.Mode = "direct"
 		cs.Pre, cs.Stream = nil, false
+		cs.Ctor, cs.Mut, cs.Pre2, cs.Path = "", "", nil, ""
+	} else {
+		if cs.Ctor != "handler" && cs.Ctor != "literal" {
+			cs.Ctor = "new"
+		}
+		if cs.Ctor == "new" {
+			cs.Path = ""
+		}
+		switch cs.Mut {
+		case "append", "replace":
+		case "truncate":
+			cs.Pre2 = nil
+		default:
+			cs.Mut, cs.Pre2 = "none", nil
+		}
 	}
 	// order: keep only as many occurrences of a context as it has chunks,
 	// append what is missing
@@ -288,6 +347,28 @@ func (nm *names) facts(o Op, first bool) []fact {
 		if o.V {
 			return []fact{{"attr", "onclick", nm.call(o.I, o.A)}}
 		}
+	case "onel":
+		if o.V {
+			return []fact{{"attr", "onclick", nm.call(o.I, o.A)}}
+		}
+		return []fact{{"attr", "onclick", nm.call(o.J, o.B)}}
+	case "hxel":
+		if o.V {
+			return []fact{{"attr", "hx-on::click", nm.call(o.I, o.A)}}
+		}
+		return []fact{{"attr", "hx-on::click", nm.call(o.J, o.B)}}
+	case "onnest":
+		if o.V && o.W {
+			return []fact{{"attr", "onclick", nm.call(o.I, o.A)}}
+		}
+		if o.V {
+			return []fact{{"attr", "onmouseover", nm.call(o.J, o.B)}}
+		}
+	case "ccel":
+		if o.V {
+			return []fact{cl(o.I)}
+		}
+		return []fact{cl(o.J)}
 	case "cd", "cfn":
 		return []fact{cl(o.I)}
 	case "cc", "csl", "cn", "cma":
@@ -473,7 +554,7 @@ func checkStream(nm *names, out []byte, ops []Op, pre map[string]bool) []Viol {
 						defOps[it] = append(defOps[it], top())
 						if pre[m[1]] {
 							blame = []string{top()}
-							add("mw-inlined", "class %s is registered with the CSS middleware but its rule was inlined", m[1])
+							add("mw-inlined", "class %s is served by the middleware's stylesheet endpoint but its rule was also inlined", m[1])
 						}
 					}
 				} else {
@@ -597,9 +678,12 @@ func repeated(cs Case) bool {
 			switch o.K {
 			case "sc", "on", "hx", "onc":
 				n[fmt.Sprint("s", o.I%nScripts)]++
-			case "on2":
+			case "on2", "onel", "hxel", "onnest":
 				n[fmt.Sprint("s", o.I%nScripts)]++
 				n[fmt.Sprint("s", o.J%nScripts)]++
+			case "ccel":
+				n[fmt.Sprint("c", o.I%nClasses)]++
+				n[fmt.Sprint("c", o.J%nClasses)]++
 			case "cd", "cfn", "ckv", "ckvc", "ccond":
 				n[fmt.Sprint("c", o.I%nClasses)]++
 			case "cc", "csl", "cn", "cma", "ckvs", "cmix":
@@ -774,23 +858,29 @@ func (e *engine) judge(cs Case) []Viol {
 		if len(r.Outs) != 2 {
 			return []Viol{{Tag: "harness", Msg: "http job returned no bodies"}}
 		}
-		pre := map[string]bool{}
-		for _, p := range cs.Pre {
-			pre[e.nm.classes[p%nClasses]] = true
+		// "registered" is decided by asking the real stylesheet endpoint of the
+		// same middleware: a class it serves must never be inlined, every other
+		// class used on the page must be inlined (once, before its first use).
+		css := string(unb64(r.CSS))
+		served := map[string]bool{}
+		for _, m := range reRule.FindAllStringSubmatch(css, -1) {
+			served[m[1]] = true
 		}
 		body := unb64(r.Outs[0])
 		if !bytes.Equal(body, unb64(r.Outs[1])) {
 			vs = append(vs, Viol{Tag: "mw-requests-differ", Msg: fmt.Sprintf("two requests through the same middleware rendered differently: %q vs %q", body, unb64(r.Outs[1]))})
 		}
-		vs = append(vs, checkStream(e.nm, body, flat(cs.Ctxs[0]), pre)...)
-		// R5: registered classes are served by the stylesheet endpoint
-		css := string(unb64(r.CSS))
-		for _, p := range cs.Pre {
+		vs = append(vs, checkStream(e.nm, body, flat(cs.Ctxs[0]), served)...)
+		// R5: what the program registered (exported Classes when serving) is
+		// served by the stylesheet endpoint
+		final := finalClasses(cs)
+		for _, p := range final {
 			if !strings.Contains(css, e.nm.rules[p%nClasses]) {
 				vs = append(vs, Viol{Tag: "mw-not-served", Msg: fmt.Sprintf("registered class %s is not served by the stylesheet endpoint (body %q)", e.nm.classes[p%nClasses], css)})
+				break
 			}
 		}
-		if len(cs.Pre) > 0 && !strings.HasPrefix(r.CSSType, "text/css") {
+		if len(final) > 0 && !strings.HasPrefix(r.CSSType, "text/css") {
 			vs = append(vs, Viol{Tag: "mw-not-served", Msg: fmt.Sprintf("stylesheet endpoint content type %q", r.CSSType)})
 		}
 		return vs
@@ -818,7 +908,7 @@ func (e *engine) judge(cs Case) []Viol {
 
 // ---------------------------------------------------------------- generators
 
-var classForms = []string{"cd", "cc", "ckv", "ckvc", "csl", "cn", "cfn", "ckvs", "cmix", "cma", "ccond", "cdyn"}
+var classForms = []string{"cd", "cc", "ckv", "ckvc", "csl", "cn", "cfn", "ckvs", "cmix", "cma", "ccond", "ccel", "cdyn"}
 var dynForms = []string{"d", "kv", "kvc", "sl", "n", "fn", "kvs", "s", "m", "ks"}
 
 // atoms: the op instances used for exhaustive enumeration.
@@ -830,6 +920,10 @@ func atoms() []Op {
 		Op{K: "on2", I: 0, A: "a", J: 0, B: "b"}, Op{K: "on2", I: 0, A: "a", J: 1, B: "b"},
 		Op{K: "onc", I: 0, A: "a", V: true}, Op{K: "onc", I: 0, A: "a", V: false},
 		Op{K: "hx", I: 0, A: "a"},
+		Op{K: "onel", I: 0, A: "a", J: 1, B: "b", V: true}, Op{K: "onel", I: 0, A: "a", J: 1, B: "b", V: false},
+		Op{K: "hxel", I: 0, A: "a", J: 1, B: "b", V: false},
+		Op{K: "onnest", I: 0, A: "a", J: 1, B: "b", V: true, W: true}, Op{K: "onnest", I: 0, A: "a", J: 1, B: "b", V: true, W: false},
+		Op{K: "ccel", I: 0, J: 1, V: true}, Op{K: "ccel", I: 0, J: 1, V: false},
 		Op{K: "cd", I: 0}, Op{K: "cd", I: 3}, Op{K: "cd", I: 4},
 		Op{K: "cc", I: 0, J: 1}, Op{K: "cc", I: 0, J: 0},
 		Op{K: "ckv", I: 0, V: true}, Op{K: "ckv", I: 0, V: false},
@@ -853,11 +947,14 @@ func randOp(r *rand.Rand, depth int, budget *int) Op {
 	o := Op{I: r.Intn(3), J: r.Intn(3), A: string(rune('a' + r.Intn(3))), B: string(rune('a' + r.Intn(3))), V: r.Intn(3) > 0, W: r.Intn(3) > 0}
 	switch p := r.Intn(20); {
 	case p < 5:
-		o.K = []string{"sc", "on", "on2", "onc", "hx"}[r.Intn(5)]
+		o.K = []string{"sc", "on", "on2", "onc", "hx", "onel", "onel", "onnest", "hxel"}[r.Intn(9)]
+		o.V, o.W = r.Intn(2) == 0, r.Intn(2) == 0
 	case p < 13:
 		o.K = classForms[r.Intn(len(classForms))]
 		o.I, o.J = r.Intn(nClasses), r.Intn(nClasses)
-		if o.I == o.J { // never the same class both enabled and disabled
+		if o.K == "ccel" {
+			o.V = r.Intn(2) == 0
+		} else if o.I == o.J { // never the same class both enabled and disabled
 			o.W = o.V || o.K == "cmix"
 		}
 		if o.K == "cdyn" {
@@ -934,6 +1031,14 @@ func randCase(r *rand.Rand) Case {
 			}
 		}
 		cs.Ctxs[0].Nonce = ""
+		cs.Ctor = []string{"new", "new", "handler", "literal"}[r.Intn(4)]
+		cs.Mut = []string{"none", "none", "append", "replace", "truncate"}[r.Intn(5)]
+		for n := r.Intn(3); n > 0 && (cs.Mut == "append" || cs.Mut == "replace"); n-- {
+			cs.Pre2 = append(cs.Pre2, r.Intn(nClasses))
+		}
+		if cs.Ctor != "new" && r.Intn(2) == 0 {
+			cs.Path = "/x.css"
+		}
 		return cs
 	case p < 4:
 		return Case{Mode: "direct", Ctxs: []Ctx{randCtx(r, 30)}}
@@ -965,31 +1070,46 @@ func size(cs Case) int {
 	if cs.Stream {
 		n++
 	}
+	if cs.Ctor != "new" && cs.Ctor != "" {
+		n++
+	}
+	if cs.Mut != "none" && cs.Mut != "" {
+		n += 2
+	}
+	if cs.Path != "" {
+		n++
+	}
+	n += 2 * len(cs.Pre2)
+	for _, p := range cs.Pre2 {
+		n += p
+	}
 	var walk func(ops []Op)
 	walk = func(ops []Op) {
 		for _, o := range ops {
 			n += 10 + o.I + o.J + len(o.E)*3
 			switch o.K {
-			case "onc", "ckv", "ckvc", "ccond", "ckvs", "cmix":
+			case "onc", "ckv", "ckvc", "ccond", "ckvs", "cmix", "onel", "hxel", "onnest", "ccel":
 				if !o.V {
 					n++
 				}
 			}
 			switch o.K {
-			case "ckvs", "cmix":
+			case "ckvs", "cmix", "onnest":
 				if !o.W {
 					n++
 				}
 			}
-			if o.A != "a" {
+			if o.A != "a" && o.A != "" {
 				n++
 			}
-			if o.B != "a" {
+			if o.B != "a" && o.B != "" {
 				n++
 			}
 			switch o.K {
-			case "on2", "cc", "csl", "cn", "cma", "ckvs", "cmix", "cdyn", "onc", "ccond", "hx":
+			case "on2", "cc", "csl", "cn", "cma", "ckvs", "cmix", "cdyn", "onc", "ccond", "hx", "cfn", "ckv", "ckvc":
 				n++ // these have a simpler sibling form
+			case "onel", "onnest", "hxel", "ccel":
+				n += 2
 			}
 			for _, e := range o.E {
 				n += e.I
@@ -1068,10 +1188,31 @@ func opReductions(ops []Op) [][]Op {
 			}
 		}
 		switch o.K {
+		case "onel", "hxel", "onnest", "ccel":
+			if !o.V {
+				mod(func(o *Op) { o.V = true })
+			}
+			if o.K == "onnest" && !o.W {
+				mod(func(o *Op) { o.W = true })
+			}
+		}
+		switch o.K {
+		case "onnest", "hxel":
+			mod(func(o *Op) { o.K = "onel" })
+		case "onel":
+			mod(func(o *Op) { o.K = "onc" })
+		case "ccel":
+			mod(func(o *Op) { o.K = "ccond" })
+		}
+		switch o.K {
 		case "on2", "onc", "hx":
 			mod(func(o *Op) { o.K = "on" })
-		case "cc", "csl", "cn", "cma", "ccond":
+		case "cc", "csl", "cn", "cma", "ccond", "cfn", "cmix":
 			mod(func(o *Op) { o.K = "cd" })
+		case "ckv", "ckvc", "ckvs":
+			if o.V {
+				mod(func(o *Op) { o.K = "cd" })
+			}
 		case "cdyn":
 			for k := range o.E {
 				k := k
@@ -1164,6 +1305,72 @@ func sliceCase(cs Case, v Viol) (Case, bool) {
 	return normalize(c), true
 }
 
+func usesJ(k string) bool {
+	switch k {
+	case "on2", "onel", "hxel", "onnest", "cc", "csl", "cn", "cma", "ckvs", "cmix", "ccel":
+		return true
+	}
+	return false
+}
+
+func usesI(k string) bool { return k != "cdyn" && k != "oncec" && k != "box" && k != "comp" }
+
+func isClassOp(k string) bool { return strings.HasPrefix(k, "c") && k != "comp" }
+func isScriptOp(k string) bool {
+	switch k {
+	case "sc", "on", "on2", "onc", "hx", "onel", "hxel", "onnest":
+		return true
+	}
+	return false
+}
+
+// swapItem exchanges item x and item 0 (css classes or scripts) everywhere in
+// the case: in the ops and, for classes, in the middleware's lists. Renaming
+// an item consistently keeps a failure that couples a use with a registration.
+func swapItem(cs Case, class bool, x int) Case {
+	c := cloneCase(cs)
+	sw := func(v int) int {
+		switch v {
+		case x:
+			return 0
+		case 0:
+			return x
+		}
+		return v
+	}
+	var walk func(ops []Op)
+	walk = func(ops []Op) {
+		for i := range ops {
+			if (class && isClassOp(ops[i].K)) || (!class && isScriptOp(ops[i].K)) {
+				if usesI(ops[i].K) {
+					ops[i].I = sw(ops[i].I)
+				}
+				if usesJ(ops[i].K) {
+					ops[i].J = sw(ops[i].J)
+				}
+				for k := range ops[i].E {
+					ops[i].E[k].I = sw(ops[i].E[k].I)
+				}
+			}
+			walk(ops[i].Sub)
+		}
+	}
+	for ci := range c.Ctxs {
+		for j := range c.Ctxs[ci].Chunks {
+			walk(c.Ctxs[ci].Chunks[j])
+		}
+	}
+	if class {
+		for i := range c.Pre {
+			c.Pre[i] = sw(c.Pre[i])
+		}
+		for i := range c.Pre2 {
+			c.Pre2[i] = sw(c.Pre2[i])
+		}
+	}
+	return c
+}
+
 func reductions(cs Case) []Case {
 	var out []Case
 	add := func(c Case) {
@@ -1172,9 +1379,16 @@ func reductions(cs Case) []Case {
 			out = append(out, c)
 		}
 	}
+	for x := 1; x < nClasses; x++ {
+		add(swapItem(cs, true, x))
+		if x < nScripts {
+			add(swapItem(cs, false, x))
+		}
+	}
 	if cs.Mode == "http" {
 		c := cloneCase(cs)
 		c.Mode, c.Pre, c.Stream = "direct", nil, false
+		c.Ctor, c.Mut, c.Pre2, c.Path = "", "", nil, ""
 		add(c)
 		for i := range cs.Pre {
 			c := cloneCase(cs)
@@ -1190,6 +1404,31 @@ func reductions(cs Case) []Case {
 			if p > 0 {
 				c := cloneCase(cs)
 				c.Pre[i] = 0
+				add(c)
+			}
+		}
+		if cs.Mut != "none" {
+			c := cloneCase(cs)
+			c.Mut, c.Pre2 = "none", nil
+			add(c)
+		}
+		if cs.Ctor != "new" {
+			c := cloneCase(cs)
+			c.Ctor, c.Path = "new", ""
+			add(c)
+		}
+		if cs.Path != "" {
+			c := cloneCase(cs)
+			c.Path = ""
+			add(c)
+		}
+		for i, p := range cs.Pre2 {
+			c := cloneCase(cs)
+			c.Pre2 = append(c.Pre2[:i:i], c.Pre2[i+1:]...)
+			add(c)
+			if p > 0 {
+				c := cloneCase(cs)
+				c.Pre2[i] = 0
 				add(c)
 			}
 		}
@@ -1430,7 +1669,7 @@ func dbg(f string, a ...any) {
 
 // Run is the C12 check.
 func Run(c *core.Ctx) {
-	c.Rule = "cases = use histories (ops: render script component, on*/hx-on attribute with one or two scripts, conditional attributes, class expressions holding css components in every container form accepted by templ.Classes/RenderCSSItems incl. composed ones, once handles with block / WithComponent; nested in child blocks, child components and once blocks) over 3 scripts, 5 css classes (2 from one parametrised css template), 3 once handles, rendered by one compiled interpreter in 1..3 contexts whose chunks are rendered alternately, or through CSSMiddleware+Handler with a pre-registered subset; oracle on the HTML5 token stream: <=1 definition per item and context, definition before first use, every executed op renders its call/class name/once content in its own wrapper, executed ops = reference, middleware classes never inlined and served by the endpoint, every context byte-equal to the same history rendered alone; exhaustive part: all sequences of length<=2 over the op atoms, each also nested in once/box/comp (thorough: length<=3 over the flat atoms); non-trivial = some item used at least twice in one context; distinct by canonical case text"
+	c.Rule = "cases = use histories (ops: render script component, on*/hx-on attribute with one or two scripts, on*/hx-on and class attributes in the then- and else-branch of attribute-level if (also nested), class expressions holding css components in every container form accepted by templ.Classes/RenderCSSItems incl. composed ones, once handles with block / WithComponent; nested in child blocks, child components and once blocks) over 3 scripts, 5 css classes (2 from one parametrised css template), 3 once handles, rendered by one compiled interpreter in 1..3 contexts whose chunks are rendered alternately, or through CSSMiddleware+Handler with a pre-registered subset (middleware built by NewCSSMiddleware, by struct literal around NewCSSHandler, or by struct literals only, optionally under another path; exported Classes then left alone / appended to / replaced / truncated before serving); oracle on the HTML5 token stream: <=1 definition per item and context, definition before first use, every executed op renders its call/class name/once content in its own wrapper, executed ops = reference, a class served by the real stylesheet endpoint of the same middleware is never inlined and every other used class is inlined once before use, classes in the exported list are served, every context byte-equal to the same history rendered alone; exhaustive part: all sequences of length<=2 over the op atoms, each also nested in once/box/comp (thorough: length<=3 over the flat atoms); non-trivial = some item used at least twice in one context; distinct by canonical case text"
 	c.Assume("golang.org/x/net/html tokenizer; class ids and script function names are taken as opaque labels announced by the driver")
 	c.Assume("within one class expression a css component is never both enabled and disabled (the winner would be a policy question outside C12)")
 	e := build(c)
@@ -1477,9 +1716,39 @@ func Run(c *core.Ctx) {
 			if len(cs.Ctxs) > 1 {
 				multi++
 			}
+			if cs.Mode == "http" {
+				c.Add("middleware_"+cs.Ctor+"_"+cs.Mut, 1)
+			}
 			for _, cx := range cs.Ctxs {
-				if n := len(reference(flat(cx))); n > maxOps {
+				ref := reference(flat(cx))
+				if n := len(ref); n > maxOps {
 					maxOps = n
+				}
+				for _, x := range ref { // conditional-attribute uses executed (= observed: R3)
+					switch x.op.K {
+					case "onc":
+						if x.op.V {
+							c.Add("cond_attr_script_uses_then", 1)
+						}
+					case "onel", "hxel":
+						if x.op.V {
+							c.Add("cond_attr_script_uses_then", 1)
+						} else {
+							c.Add("cond_attr_script_uses_else", 1)
+						}
+					case "onnest":
+						if x.op.V && x.op.W {
+							c.Add("cond_attr_script_uses_nested_then", 1)
+						} else if x.op.V {
+							c.Add("cond_attr_script_uses_nested_else", 1)
+						}
+					case "ccond", "ccel":
+						if x.op.V {
+							c.Add("cond_attr_class_uses_then", 1)
+						} else if x.op.K == "ccel" {
+							c.Add("cond_attr_class_uses_else", 1)
+						}
+					}
 				}
 			}
 			if repeated(cs) {
@@ -1522,6 +1791,23 @@ func Run(c *core.Ctx) {
 			for _, b := range as {
 				for _, d := range as {
 					cases = append(cases, single([]Op{a, b, d}))
+				}
+			}
+		}
+	}
+	// middleware: every construction x every later treatment of the exported
+	// Classes field x small registered sets, on a page using c0 and c1
+	page := []Op{{K: "cd", I: 0}, {K: "cd", I: 1}, {K: "cd", I: 0}}
+	for _, ctor := range []string{"new", "handler", "literal"} {
+		for _, mut := range []string{"none", "append", "replace", "truncate"} {
+			for _, pre := range [][]int{nil, {0}, {1}, {0, 1}, {2, 0}} {
+				for _, pre2 := range [][]int{{0}, {1}, {0, 1}} {
+					if (mut == "none" || mut == "truncate") && len(pre2) != 1 {
+						continue
+					}
+					for _, stream := range []bool{false, true} {
+						cases = append(cases, normalize(Case{Mode: "http", Ctxs: []Ctx{{Chunks: [][]Op{page}}}, Pre: pre, Pre2: pre2, Ctor: ctor, Mut: mut, Stream: stream}))
+					}
 				}
 			}
 		}
